@@ -711,8 +711,15 @@ pub fn generate(seed: u64, tier: &str, property: &str) -> RegScenario {
                 }
                 _ => {
                     // file loaded without an explicit name: the name is the path
+                    // (the name is the path AS GIVEN: unusual spellings of one file are different
+                    // names, and a spelling is never tidied)
                     h.push(Op::DiskWrite { path: "other/extra.txt".into(), hex: hx("plain extra") }, None, false);
-                    h.push(Op::AddFile { path: "other/extra.txt".into(), name: None, faults: vec![] }, None, false);
+                    let spelled = rng.pick(&["other/extra.txt", "other//extra.txt", "other/./extra.txt", "./other/extra.txt", "other/../other/extra.txt", "other///extra.txt"]).to_string();
+                    h.push(Op::AddFile { path: spelled.clone(), name: None, faults: vec![] }, Some("file-named-by-its-path-as-spelled"), false);
+                    if rng.chance(1, 2) {
+                        let second = rng.pick(&["other/extra.txt", "other//extra.txt", "other/./extra.txt"]).to_string();
+                        h.push(Op::AddFile { path: second, name: None, faults: vec![] }, Some("file-named-by-its-path-as-spelled"), false);
+                    }
                 }
             }
         } else {
